@@ -13,7 +13,14 @@ _SUMM = {}
 def summary(ctx, f, binding=None):
     key = (id(ctx.project), f.qname, tuple(sorted((binding or {}).items())))
     if key not in _SUMM:
-        ex = Executor(ctx.project)
+        # private helpers of the same module are expanded at their call sites (helper extraction is invisible)
+        funcs, mod, q = ctx.project.funcs, f.module.name, f.qname
+
+        def inline(cq, depth):
+            cf = funcs.get(cq)
+            return cf is not None and cf.module.name == mod and cf.name.startswith('_') \
+                and not cf.name.startswith('__') and cq != q
+        ex = Executor(ctx.project, inline=inline, max_depth=7)
         _SUMM[key] = (ex, ex.run(f, binding or {}))
     return _SUMM[key]
 
